@@ -647,16 +647,32 @@ fn c02() -> Property {
                 cases_per_seed: 1,
                 note: "scripted sender -> real receiver whose application disposes of every delivery (accept / release / modify, auto-accept, rejection of the ones that do not decode): every unsettled delivery is covered by a disposition on the wire",
             },
+            Variant {
+                name: "retention-receiver-unsettled-map-at-resume",
+                weight: 1,
+                make: || Box::pin(scen::c02r::run_receiver()),
+                max_steps: 3_000_000,
+                cases_per_seed: 1,
+                note: "scripted sender -> real receiver (settling first or second): pre-settled and unsettled deliveries of 1-3 frames, outcomes applied to a seeded subset, the sender settles a seeded subset of the reported outcomes; the application detaches and resumes the link and the unsettled map of the attach it writes is read off the wire: no settled delivery in it, every outcome the sender has not settled yet in it with its state; then the sender settles the rest and the link is probed again",
+            },
+            Variant {
+                name: "retention-sender-unsettled-map-at-resume",
+                weight: 1,
+                make: || Box::pin(scen::c02r::run_sender()),
+                max_steps: 3_000_000,
+                cases_per_seed: 1,
+                note: "real sender -> scripted receiver: a seeded subset of the deliveries is settled (pre-settled, settled by the receiver's disposition, or outcome + the sender's own settling disposition in mode second), the rest is left outstanding; the application detaches and resumes the link: no settled delivery in the unsettled map of the attach it writes",
+            },
         ],
         quick_runs: 6_000,
         thorough_runs: 300_000,
         rule: "one run = 1-3 links, 1-20 deliveries each with its own distinguishable planned outcome (accepted, rejected with a unique description, released, modified with seeded flags), every snd/rcv settle-mode combination, sends that are plain or batchable with outcomes awaited in a seeded order, and either a real receiver disposing one by one / in *_all batches / out of order / through the disposer / late, or a scripted receiver issuing single-id, range (also spanning links), duplicate, non-terminal-first, unsettled-then-settled and unknown-id dispositions; every run is non-trivial; distinct = distinct event-log hash",
         assumptions: vec![
-            "retention of settled deliveries in the unsettled maps is observed only through its visible effects (a repeated disposition must not change a resolved send; mode-second echoes on the wire), not through the resume path",
+            "what an endpoint retains in its unsettled state is read from the unsettled map of the attach frame it writes when the application detaches and resumes the link (client side; the listener does not resume links), and through visible effects elsewhere (a repeated disposition must not change a resolved send; mode-second echoes on the wire)",
         ],
         real_components: REAL.to_vec(),
         stub_components: STUB.to_vec(),
-        expected_probes: vec!["settling-echo-checked", "range-disposition", "non-terminal-disposition-first", "disposition-for-unknown-id", "repeated-disposition-for-settled-id", "unsettled-then-settled", "range-over-already-settled-ids"],
+        expected_probes: vec!["receiver-unsettled-map-read", "sender-unsettled-map-read", "settled-delivery-absent-from-unsettled-map", "outcome-kept-until-sender-settles", "second-probe-after-late-settlement", "resumed-link-works", "settling-echo-checked", "range-disposition", "non-terminal-disposition-first", "disposition-for-unknown-id", "repeated-disposition-for-settled-id", "unsettled-then-settled", "range-over-already-settled-ids"],
     }
 }
 
